@@ -135,6 +135,58 @@ func runFrame(c *core.Ctx) []core.Obligation {
 		}
 	}
 
+	// ---- (i') when the guard exempts values by kind, every numeric kind must stay subject to it
+	if kind != nil {
+		num := int64(jsonConst(c, "Num"))
+		str := int64(jsonConst(c, "String"))
+		direct := map[int64]bool{}
+		viaClass, usesKind := false, false
+		for _, x := range fn.Blocks {
+			n := len(x.Instrs)
+			if n == 0 {
+				continue
+			}
+			ifi, ok := x.Instrs[n-1].(*ssa.If)
+			if !ok {
+				continue
+			}
+			bo, ok := ifi.Cond.(*ssa.BinOp)
+			if !ok || !dependsOn(bo, func(v ssa.Value) bool { return v == kind }) {
+				continue
+			}
+			usesKind = true
+			k, isK := constInt(bo.Y)
+			if !isK {
+				continue
+			}
+			if call, ok := bo.X.(*ssa.Call); ok && strings.HasSuffix(calleeName(call.Common()), "Kind).Class") && k == num {
+				viaClass = true
+			}
+			if bo.X == kind {
+				direct[k] = true
+			}
+		}
+		if usesKind {
+			missing := []string{}
+			if !viaClass {
+				jp := c.Pkg("json")
+				for _, name := range jp.Types.Scope().Names() {
+					if k, ok := jp.Types.Scope().Lookup(name).(*types.Const); ok && namedKey(k.Type()) == "json.Kind" {
+						v, _ := constantUint(k)
+						if int64(v) > num && int64(v) < str && !direct[int64(v)] {
+							missing = append(missing, name)
+						}
+					}
+				}
+			}
+			if len(missing) > 0 {
+				b.bad("framing-guard:number-kinds", c.InstrPos(parseCall), fmt.Sprintf("the end-of-buffer guard exempts values by kind but does not keep every numeric kind under it (missing %v): such a number cut by a read boundary is returned as two values", missing))
+			} else {
+				b.ok("framing-guard:number-kinds", c.InstrPos(parseCall), "every numeric kind (Class() == Num) stays subject to the end-of-buffer guard")
+			}
+		}
+	}
+
 	// ---- (ii) sticky error
 	{
 		key := "sticky-error"
